@@ -97,6 +97,12 @@ TIE (measured every run, numbers in evidence/C16.json)
        operators (SymPy's printed text -> SymbolicDim(text), serde, model parser).  C16_parser_structure_current
        (ProofsStructure.v) pins classes / methods / assigned self.* / raise counts of the parser source, fail closed.
 
+  zero_grid / collision_* (after seeded C16-r6m2: `if not value` in SymbolicDim.__init__ turns every result SymPy reduces
+       to exactly 0 into the unknown dimension; C16-r6m1: an identifier spelling a function name is parsed as a call even
+       without "("): sub-expressions that are 0 at construction time, alone and inside larger trees; dimension names
+       that spell a key of _ALLOWED_FUNCTIONS (both spellings) in grammar strings, in trees and through print -> parse.
+       The same families open the search that runs after a broken obligation.
+
 READINGS
   * expressions whose exact value does not exist under the binding are outside the statement;
   * a non-integer exact value must come back as the dimension whose text is that rational ("7/2"), or as a
@@ -868,6 +874,8 @@ def _tree_ok(m) -> bool:
 # --------------------------------------------------------------------------- generators: strings of the grammar
 
 NAMES = ["N", "M", "K", "batch", "seq_len", "_d", "x1", "a.b", "decoder_input_ids.45_dim_1", "H", "W"]
+# dimension NAMES that spell a key of _ALLOWED_FUNCTIONS (either spelling): `max + 1` is a sum of the symbol max
+COLLIDE = ["max", "Max", "min", "Min", "floor", "ceiling", "Abs", "sign", "sqrt", "mod", "Mod"]
 FN1 = ["floor", "ceiling", "Abs", "sign"]
 FN2 = ["mod", "Mod"]
 FNN = ["max", "Max", "min", "Min"]
@@ -919,16 +927,16 @@ def gen_tokens(rng, d: int, names: list[str]) -> list:
         if r < 0.55:
             return ["("] + expr(d - 1) + [")"]
         if r < 0.75:
-            return [("id", rng.choice(FN1)), "("] + expr(d - 1) + [")"]
+            return [("fn", rng.choice(FN1)), "("] + expr(d - 1) + [")"]
         if r < 0.85:
-            return [("id", rng.choice(FN2)), "("] + expr(d - 1) + [","] + expr(d - 1) + [")"]
+            return [("fn", rng.choice(FN2)), "("] + expr(d - 1) + [","] + expr(d - 1) + [")"]
         if r < 0.97:
             n = rng.choice([1, 2, 2, 3])
-            out = [("id", rng.choice(FNN)), "("]
+            out = [("fn", rng.choice(FNN)), "("]
             for i in range(n):
                 out += ([","] if i else []) + expr(d - 1)
             return out + [")"]
-        return [("id", "sqrt"), "("] + rng.choice([[("num", 16)], [("num", 9)], [("id", names[0]), ("op", "*"), ("id", names[0])]]) + [")"]
+        return [("fn", "sqrt"), "("] + rng.choice([[("num", 16)], [("num", 9)], [("id", names[0]), ("op", "*"), ("id", names[0])]]) + [")"]
 
     def power(d):
         b = primary(d)
@@ -980,6 +988,8 @@ def render_py(toks, names: list[str]) -> str:
             out.append(f"F({t[1]})")
         elif t[0] == "id":
             out.append(f"v{names.index(t[1])}" if t[1] in names else f"f_{t[1]}")
+        elif t[0] == "fn":
+            out.append(f"f_{t[1]}")
         else:
             out.append(t[1])
     return " ".join(out)
@@ -1049,6 +1059,11 @@ def gen_tree(rng, d: int, names: list[str], top: bool = True):
             # rounding of a quotient is the interesting case
             sub = ["div", sub, rng.choice([["int", rng.choice([2, 3, 4, -2, -3])], gen_tree(rng, d - 2, names, False)])]
         return [k, sub]
+    if r < 0.26 and not top:
+        # a sub-expression SymPy reduces to exactly 0 when it is built
+        x = gen_tree(rng, max(d - 2, 0), names, False)
+        return rng.choice([["sub", x, x], ["mul", x, ["int", 0]], ["mod", ["mul", ["int", 2], ["sym", rng.choice(names)]], ["int", 2]],
+                           ["sub", ["floordiv", ["sym", names[0]], ["sym", names[0]]], ["int", 1]]])
     if r < 0.36:
         # identity-looking constants (0, 1, -1) on either side of every operator, over a rational-valued operand
         k = rng.choice(BIN)
@@ -1161,8 +1176,62 @@ def usym_grid() -> list[dict]:
     return out
 
 
+def zero_grid() -> list[dict]:
+    """Sub-expressions SymPy reduces to exactly 0 AT CONSTRUCTION TIME (N - N, N*0, (2*N) % 2, N//N - 1, ...): alone
+    and inside larger expressions; the exact value (0 for the bare ones) is expected, not an unknown dimension."""
+    n, m = ["sym", "N"], ["sym", "M"]
+    zeros = [["sub", n, n], ["mul", n, ["int", 0]], ["mul", ["int", 0], n], ["mod", ["mul", ["int", 2], n], ["int", 2]],
+             ["sub", ["floordiv", n, n], ["int", 1]], ["sub", ["add", n, m], ["add", m, n]], ["mod", n, ["int", 1]],
+             ["floordiv", ["int", 0], n], ["sub", ["max", n, n], n], ["trunc", ["div", ["sub", n, n], ["int", 2]]],
+             ["neg", ["sub", n, n]], ["floor", ["div", ["sub", m, m], n]], ["sub", ["div", n, n], ["int", 1]],
+             ["add", ["usym", "N", "plain", 1, 0], ["neg", ["usym", "N", "plain", 1, 0]]], ["pow", ["sub", n, n], ["int", 2]]]
+    out = []
+    for z in zeros:
+        ss = syms_of(z)
+        b = {k_: v for k_, v in (("N", 5), ("M", 3)) if k_ in ss}
+        out.append({"tree": z, "bindings": dict(b), "partial": {}})
+        for t in (["add", z, m], ["mul", ["add", z, ["int", 3]], m], ["floordiv", m, ["add", z, ["int", 2]]],
+                  ["sub", ["int", 7], z], ["max", z, m]):
+            bb = dict(b, M=3)
+            out.append({"tree": t, "bindings": bb, "partial": ({"M": 3} if len(out) % 2 else {})})
+    return out
+
+
+def collision_tree_cases() -> list[dict]:
+    """Dimensions NAMED like a function-table key, inside larger expressions and through print -> parse:
+    (SymbolicDim("max") * 2 + 1) // 3 prints floor(2*max/3 + 1/3)."""
+    out = []
+    for i, k in enumerate(COLLIDE):
+        x = ["sym", k]
+        out.append({"tree": ["floordiv", ["add", ["mul", x, ["int", 2]], ["int", 1]], ["int", 3]],
+                    "bindings": {k: 4 + i % 3}, "partial": {}})
+        out.append({"tree": ["max", ["add", x, ["int", 1]], ["mod", ["sym", "N"], x]],
+                    "bindings": {k: 3, "N": 7 + i}, "partial": {"N": 7 + i}})
+    return out
+
+
+def collision_string_items(rng) -> list[dict]:
+    """Grammar strings in which a symbol spells a function name (not followed by a parenthesis)."""
+    items = []
+    for k in COLLIDE:
+        for toks in ([("id", k), ("op", "+"), ("num", 1)],
+                     [("num", 2), ("op", "*"), ("id", k), ("op", "//"), ("num", 3)],
+                     [("fn", "floor"), "(", ("num", 2), ("op", "*"), ("id", k), ("op", "/"), ("num", 3), ("op", "+"),
+                      ("num", 1), ("op", "/"), ("num", 3), ")"],
+                     [("fn", "Max"), "(", ("id", k), ",", ("id", "N"), ")", ("op", "-"), ("id", k)],
+                     ["(", ("id", k), ")", ("op", "**"), ("num", 2), ("op", "%"), ("id", k)],
+                     [("op", "-"), ("id", k), ("op", "*"), ("fn", k if k not in ("mod", "Mod", "max", "Max", "min", "Min") else "Abs"),
+                      "(", ("id", k), ")"]):
+            names = [k, "N"]
+            b = {k: rng.choice([1, 4, 7]), "N": 3}
+            items.append({"text": render_ir(rng, toks), "bindings": b, "toks": toks, "names": names})
+    return items
+
+
 def gen_case(rng, thorough: bool):
     names = rng.sample(NAMES, rng.choice([1, 2, 2, 3]))
+    if rng.random() < 0.25:
+        names[rng.randrange(len(names))] = rng.choice(COLLIDE)
     for _ in range(50):
         t = gen_tree(rng, rng.choice([1, 2, 2, 3, 3, 4] if not thorough else [1, 2, 3, 3, 4, 4, 5]), names)
         if has_sym(t):
@@ -1972,7 +2041,8 @@ def check_trees(ck, cases: list[dict], report) -> None:
                 in_coq = False     # SymPy's value contradicts exact arithmetic here: the finding, not the model
         elif bad:
             report(case, obs, bad)
-        if in_coq and obs.get("build") == ["ok"] and all(ord(c) < 128 for c in obs["text"]):
+        if in_coq and obs.get("build") == ["ok"] and obs.get("text") is not None \
+                and all(ord(c) < 128 for c in obs["text"]):
             rows.append((case, obs))
             if ops_of(case["tree"]) & {"floordiv", "mod", "floor", "ceil", "trunc", "max", "min", "div"} \
                     and depth(case["tree"]) >= 2:
@@ -2009,7 +2079,7 @@ def flat_tokens(rng, kind: str, n: int, names: list[str]) -> list:
                 ["(", ("id", b), ("op", "+"), ("num", k % 5 + 2), ")"]
     elif kind == "calls":
         for k in range(1, n + 1):
-            out += ([("op", "+")] if out else []) + [("id", rng.choice(["floor", "ceiling", "Abs"])), "(",
+            out += ([("op", "+")] if out else []) + [("fn", rng.choice(["floor", "ceiling", "Abs"])), "(",
                                                       ("id", a), ("op", "/"), ("num", k % 6 + 2), ")"]
     elif kind == "deep":
         out = [("id", a)]
@@ -2295,6 +2365,8 @@ def gen_string_items(rng, n: int) -> list[dict]:
     items = []
     for i in range(n):
         names = rng.sample(NAMES, rng.choice([1, 2, 3]))
+        if rng.random() < 0.25:
+            names[rng.randrange(len(names))] = rng.choice(COLLIDE)
         toks = gen_tokens(rng, rng.choice([1, 2, 2, 3]), names)
         if len(toks) > 60:
             continue
@@ -2346,6 +2418,9 @@ def run(ck) -> None:
     fl = flat_string_items(rng, ck.thorough)
     ck.coverage["large_flat_strings"] = len(fl)
     s_items += fl
+    cs = collision_string_items(rng)
+    ck.coverage["function_name_collision_strings"] = len(cs)
+    s_items += cs
     s_items += gen_string_items(rng, n_str)
     grid = neutral_grid()
     ck.coverage["neutral_constant_grid_cases"] = len(grid)
@@ -2355,7 +2430,10 @@ def run(ck) -> None:
         cg = [c for i, c in enumerate(cg) if i % 2 == 0 or ops_of(c["tree"]) <= {"floordiv", "mul", "sub"}]
     ck.coverage["rounding_chain_grid_cases"] = len(cg)
     ck.coverage["caller_sympy_symbol_grid_cases"] = len(ug)
-    t_cases += cg + ug + flat_tree_cases(rng)
+    zg, ct = zero_grid(), collision_tree_cases()
+    ck.coverage["zero_at_construction_grid_cases"] = len(zg)
+    ck.coverage["function_name_collision_cases"] = len(ct)
+    t_cases += cg + ug + flat_tree_cases(rng) + zg + ct
     t_cases += [gen_case(rng, ck.thorough) for _ in range(n_tree)]
     check_strings(ck, s_items, report_string)
     check_trees(ck, t_cases, report_tree)
@@ -2410,7 +2488,7 @@ def search(ck) -> None:
         found.append({"kind": "tree", "case": case, "failures": bad, "text": obs.get("text")})
     budget_s = 3000 if not ck.thorough else 30000
     budget_t = 600 if not ck.thorough else 6000
-    for it in flat_string_items(rng, True) + gen_string_items(rng, budget_s):
+    for it in collision_string_items(rng) + flat_string_items(rng, True) + gen_string_items(rng, budget_s):
         if "toks" not in it:
             continue
         try:
@@ -2428,8 +2506,9 @@ def search(ck) -> None:
             ck.violation({"kind": "string", **{k: f2[k] for k in ("text", "bindings", "expected", "observed", "what")},
                           "broken": sorted({b["name"] for b in ck.broken_items})})
             return
-    for _ in range(budget_t):
-        case = gen_case(rng, True)
+    targeted = zero_grid() + collision_tree_cases() + neutral_grid() + usym_grid() + chain_grid()
+    for i_ in range(budget_t + len(targeted)):
+        case = targeted[i_] if i_ < len(targeted) else gen_case(rng, True)
         obs = observe(case)
         ck.count()
         bad = oracle(case, obs)
